@@ -1,6 +1,7 @@
 package main
 
 import (
+	"math/bits"
 	"fmt"
 	"go/token"
 	"go/types"
@@ -56,9 +57,10 @@ func init() {
 		"strings.TrimSpace":              inTrimSpace,
 		"strings.Clone":                  func(m *Machine, fr *frame, fn *ssa.Function, a []Value) Value { return a[0] },
 		"internal/stringslite.Clone":     func(m *Machine, fr *frame, fn *ssa.Function, a []Value) Value { return a[0] },
-		"(*strings.Builder).Grow":        nop,
+		"(*strings.Builder).Grow":        inBuilderGrow,
 		"(*strings.Builder).WriteString": inSBWrite,
 		"(*strings.Builder).WriteByte":   inSBWriteByte,
+		"(*strings.Builder).WriteRune":   inSBWriteRune,
 		"(*strings.Builder).String":      inSBString,
 		"(*strings.Builder).Len":         func(m *Machine, fr *frame, fn *ssa.Function, a []Value) Value { return Int{V: uint64(len(sbBuf(a[0])))} },
 		"(*strings.Builder).Reset":       func(m *Machine, fr *frame, fn *ssa.Function, a []Value) Value { (*a[0].(*Value)).(Struct)[1] = []Value(nil); return nil },
@@ -104,6 +106,20 @@ func init() {
 }
 
 func nop(*Machine, *frame, *ssa.Function, []Value) Value { return nil }
+
+// (*strings.Builder).Grow only changes capacity, which the model does not track,
+// but it panics on a negative count.
+func inBuilderGrow(m *Machine, fr *frame, fn *ssa.Function, a []Value) Value {
+	n := a[1].(Int)
+	neg := int64(n.V) < 0
+	if n.T != nil {
+		neg = m.branchIn(fr, mkBool(tBin("bvslt", 0, n.T, bvConst(0, n.T.W))))
+	}
+	if neg {
+		panic(goPanic{v: Iface{T: types.Typ[types.String], V: Str{S: "strings.Builder.Grow: negative count"}}, site: "strings.Builder.Grow"})
+	}
+	return nil
+}
 
 func opaqueErr(msg string) Value { return Iface{T: opaqueErrType, V: Str{S: msg}} }
 
@@ -235,7 +251,7 @@ func inUFPred(m *Machine, fr *frame, fn *ssa.Function, a []Value) Value {
 	name := a[0].(Str).S
 	s := a[1].(Str)
 	args := make([]*Term, len(s.S))
-	for i := range s.S {
+	for i := 0; i < len(s.S); i++ {
 		args[i] = s.byteTerm(i)
 	}
 	var t *Term
@@ -390,7 +406,7 @@ func inReCompile(m *Machine, fr *frame, fn *ssa.Function, a []Value) Value {
 	if !s.isConc() {
 		// uninterpreted: compiles or not is an arbitrary (but consistent) function of the bytes
 		args := make([]*Term, len(s.S))
-		for i := range s.S {
+		for i := 0; i < len(s.S); i++ {
 			args[i] = s.byteTerm(i)
 		}
 		okT := mk("uf", 0, fmt.Sprintf("uf_recompile_%d", len(args)), 0, args...)
@@ -521,7 +537,7 @@ func inSBWrite(m *Machine, fr *frame, fn *ssa.Function, a []Value) Value {
 	st := (*a[0].(*Value)).(Struct)
 	s := a[1].(Str)
 	buf, _ := st[1].([]Value)
-	for k := range s.S {
+	for k := 0; k < len(s.S); k++ {
 		buf = append(buf, s.at(k))
 	}
 	st[1] = buf
@@ -533,6 +549,24 @@ func inSBWriteByte(m *Machine, fr *frame, fn *ssa.Function, a []Value) Value {
 	buf, _ := st[1].([]Value)
 	st[1] = append(buf, a[1])
 	return Iface{}
+}
+
+// WriteRune: UTF-8 encoding of a concrete rune; a symbolic rune is restricted to ASCII (counted).
+func inSBWriteRune(m *Machine, fr *frame, fn *ssa.Function, a []Value) Value {
+	st := (*a[0].(*Value)).(Struct)
+	buf, _ := st[1].([]Value)
+	r := a[1].(Int)
+	if r.T != nil {
+		m.assumeASCIIRune(r.T, "strings.Builder.WriteRune")
+		st[1] = append(buf, Int{T: resize(r.T, 8)})
+		return Tuple{Int{V: 1}, Iface{}}
+	}
+	enc := string(rune(int32(r.V)))
+	for k := 0; k < len(enc); k++ {
+		buf = append(buf, Int{V: uint64(enc[k])})
+	}
+	st[1] = buf
+	return Tuple{Int{V: uint64(len(enc))}, Iface{}}
 }
 
 func inSBString(m *Machine, fr *frame, fn *ssa.Function, a []Value) Value {
@@ -731,7 +765,7 @@ func inEscapeString(m *Machine, fr *frame, fn *ssa.Function, a []Value) Value {
 		return Str{S: html.EscapeString(s.S)}
 	}
 	var r Str
-	for i := range s.S {
+	for i := 0; i < len(s.S); i++ {
 		b := s.at(i)
 		if b.T == nil {
 			r = concat(r, Str{S: html.EscapeString(string([]byte{byte(b.V)}))})
@@ -769,7 +803,7 @@ func inQuoteMeta(m *Machine, fr *frame, fn *ssa.Function, a []Value) Value {
 	}
 	const special = "\\.+*?()|[]{}^$"
 	var r Str
-	for i := range s.S {
+	for i := 0; i < len(s.S); i++ {
 		b := s.at(i)
 		if b.T == nil {
 			r = concat(r, Str{S: regexp.QuoteMeta(string([]byte{byte(b.V)}))})
@@ -1159,6 +1193,33 @@ func init() {
 		}
 		return inCount(m, fr, fn, []Value{asStr(a[0]), sep})
 	}
+	// math/bits: exact on concrete words; a symbolic word is concretised (forks over its feasible values)
+	bitsFn := func(name string, f func(x uint64) int) {
+		intrinsics["math/bits."+name] = func(m *Machine, fr *frame, fn *ssa.Function, a []Value) Value {
+			x := a[0].(Int)
+			v := x.V
+			if x.T != nil {
+				v = uint64(m.concIntT(fr, x, false))
+			}
+			return Int{V: uint64(f(v))}
+		}
+	}
+	bitsFn("TrailingZeros", func(x uint64) int { return bits.TrailingZeros64(x) })
+	bitsFn("TrailingZeros64", func(x uint64) int { return bits.TrailingZeros64(x) })
+	bitsFn("TrailingZeros32", func(x uint64) int { return bits.TrailingZeros32(uint32(x)) })
+	bitsFn("TrailingZeros16", func(x uint64) int { return bits.TrailingZeros16(uint16(x)) })
+	bitsFn("TrailingZeros8", func(x uint64) int { return bits.TrailingZeros8(uint8(x)) })
+	bitsFn("LeadingZeros", func(x uint64) int { return bits.LeadingZeros64(x) })
+	bitsFn("LeadingZeros64", func(x uint64) int { return bits.LeadingZeros64(x) })
+	bitsFn("LeadingZeros32", func(x uint64) int { return bits.LeadingZeros32(uint32(x)) })
+	bitsFn("Len", func(x uint64) int { return bits.Len64(x) })
+	bitsFn("Len64", func(x uint64) int { return bits.Len64(x) })
+	bitsFn("Len32", func(x uint64) int { return bits.Len32(uint32(x)) })
+	bitsFn("Len8", func(x uint64) int { return bits.Len8(uint8(x)) })
+	bitsFn("OnesCount", func(x uint64) int { return bits.OnesCount64(x) })
+	bitsFn("OnesCount64", func(x uint64) int { return bits.OnesCount64(x) })
+	bitsFn("OnesCount32", func(x uint64) int { return bits.OnesCount32(uint32(x)) })
+	bitsFn("OnesCount8", func(x uint64) int { return bits.OnesCount8(uint8(x)) })
 	intrinsics["internal/bytealg.IndexByteString"] = idxByte
 	intrinsics["internal/bytealg.IndexByte"] = idxByte
 	intrinsics["internal/bytealg.IndexString"] = idx
